@@ -345,6 +345,8 @@ class _Expr(ast.NodeTransformer):
             return node.body if node.test.value else node.orelse
         if isinstance(node.test, ast.UnaryOp) and isinstance(node.test.op, ast.Not):
             node = ast.IfExp(test=node.test.operand, body=node.orelse, orelse=node.body)
+        elif not _canonical_polarity(node.test):
+            node = ast.IfExp(test=_neg_test(node.test), body=node.orelse, orelse=node.body)
         # x if x else d  ->  x or d ;   d if x else x  ->  x and d        (x evaluated once either way when it is pure)
         if _simple_pure(node.test) and _dump(node.test) == _dump(node.body):
             return self.visit_BoolOp(ast.BoolOp(op=ast.Or(), values=[node.test, node.orelse]), descend=False)
@@ -616,6 +618,7 @@ def _norm_block(stmts, fn_locals):
                 guard += 1
                 continue
         i += 1
+    out = _implied_truth(out)
     out = _tail_merge(out)
     out = _try_hoist(out)
     out = _result_var(out)
@@ -624,6 +627,60 @@ def _norm_block(stmts, fn_locals):
     out = _loops_to_builtins(out)
     out = _inline_temps(out, fn_locals)
     out = _return_ifexp(out)
+    return out
+
+
+class _KnownTruth(ast.NodeTransformer):
+    """inside a region where the local `name` is known to be truthy / falsy: `not name` and `bool(name)` are constants"""
+    def __init__(self, name, truthy):
+        self.name, self.truthy = name, truthy
+
+    def visit_UnaryOp(self, node):
+        self.generic_visit(node)
+        if isinstance(node.op, ast.Not) and isinstance(node.operand, ast.Name) and node.operand.id == self.name:
+            return ast.Constant(not self.truthy)
+        return node
+
+    def visit_Call(self, node):
+        self.generic_visit(node)
+        if isinstance(node.func, ast.Name) and node.func.id == "bool" and len(node.args) == 1 and isinstance(node.args[0], ast.Name) and node.args[0].id == self.name and not node.keywords:
+            return ast.Constant(self.truthy)
+        return node
+
+    def visit_FunctionDef(self, node):
+        return node
+    visit_Lambda = visit_FunctionDef
+
+
+def _implied_truth(stmts):
+    """if x: <leaves> ; REST      -- in REST the local x is falsy (until it is assigned again);   if x: BODY -- in BODY it is truthy"""
+    out = list(stmts)
+    for i, s in enumerate(out):
+        if not isinstance(s, ast.If):
+            continue
+        t = s.test
+        neg = False
+        if isinstance(t, ast.UnaryOp) and isinstance(t.op, ast.Not):
+            t, neg = t.operand, True
+        if not isinstance(t, ast.Name):
+            continue
+        name = t.id
+
+        def until_rebound(block, truthy):
+            res = []
+            live = True
+            for st in block:
+                if any(isinstance(n, ast.Name) and n.id == name and isinstance(n.ctx, (ast.Store, ast.Del)) for n in ast.walk(st)):
+                    live = False        # the statement that re-binds the name (possibly in a loop) is left alone, and everything after it
+                if live:
+                    st = _KnownTruth(name, truthy).visit(st)
+                res.append(st)
+            return res
+        s.body = until_rebound(s.body, not neg)
+        if s.orelse:
+            s.orelse = until_rebound(s.orelse, neg)
+        elif _terminates(s.body):
+            out[i + 1:] = until_rebound(out[i + 1:], neg)
     return out
 
 
